@@ -28,6 +28,11 @@
 (* another one: a poison input kills ONE worker and the run goes on with the others.        *)
 (* NoDeadSkip: first_enqueue no longer skips the workers whose death an earlier run has      *)
 (* recorded; with retry off every later run silently loses one input per such worker.        *)
+(* "runpd": a poison run (one worker able to take work) abandoned by an exception the     *)
+(* worker_callback raises at the 'died' event.  LateClosed (must be rejected): the pool      *)
+(* records the death in _closed only AFTER the callback - an exception there makes it forget *)
+(* the death; with retry off the next run loses the input it hands to that worker.           *)
+(* PDFree: explore runpd in Free mode too (off in the path dumps that are replayed).         *)
 (* plan.ctimeout = "none": Pool(close_timeout=None) - clean-up waits as long as it takes   *)
 (* (no history with a stuck or lingering worker is generated for it: its close would not    *)
 (* return).  NoneTimeoutRejected: the constructor refuses close_timeout=None.               *)
@@ -48,7 +53,7 @@
 (* at the very end of _close), so a later close()/terminate() does the clean-up again.     *)
 EXTENDS Naturals, Sequences, FiniteSets, TLC, PoolLifeProps
 
-CONSTANTS Fix, MaxOps, MaxW, Kinds, Plans, Free, ReuseKeys, NoReinit, NoRekey, EarlyFlag, StickyGuard, EarlyUnreg, ClosedOnlyWait, StaleOverwrite, NoneTimeoutRejected, NoDeadSkip, Hist
+CONSTANTS Fix, MaxOps, MaxW, Kinds, Plans, Free, ReuseKeys, NoReinit, NoRekey, EarlyFlag, StickyGuard, EarlyUnreg, ClosedOnlyWait, StaleOverwrite, NoneTimeoutRejected, NoDeadSkip, LateClosed, PDFree, Hist
 
 VARIABLES plan,       \* scenario: [id, force ("none" | "false"), ops]; ops is followed when Free = FALSE
           ws,         \* workers ever created: sequence of [kind, os, stuck, key, owned]
@@ -94,7 +99,7 @@ Idle == pc = "idle" /\ Budget
 \* pc = "idleInt": at rest after a run that was left through a BaseException (guard reset, as the code does);
 \* pc = "idleGuard": the same with _map_guard left set (StickyGuard).  Only closing calls follow.
 RestPcs == {"idle", "idleInt", "idleGuard"}
-NewW(kind, key, owned) == [kind |-> kind, os |-> "alive", stuck |-> FALSE, key |-> key, regkey |-> key, owned |-> owned]
+NewW(kind, key, owned) == [kind |-> kind, os |-> "alive", stuck |-> FALSE, key |-> key, regkey |-> key, owned |-> owned, told |-> FALSE]
 
 AddLike(name, op, kind) ==
   /\ Idle /\ Go(name) /\ Len(ws) < MaxW
@@ -139,8 +144,10 @@ Run(name) ==                                \* name: "run" | "runp" (poison: the
               pz     == poison \/ stale # {}                       \* a stale poison input is retried first and kills like a fresh one
               misfiled == \E w \in got : ws[w].regkey # ws[w].key      \* results arrive under an id the registry does not know: assert fails
               old    == IF got # {} /\ ans[1] > ans[2] THEN ans[1] - ans[2] ELSE 0   \* old answers the pool does not know about are taken for new ones
-              lost   == IF NoDeadSkip /\ noretry /\ name = "run" /\ got # {}       \* an input offered to a worker recorded dead is dropped
-                        THEN Cardinality({w \in RegW : ws[w].key \in closedIds}) ELSE 0
+              forgot == {w \in deadw : ws[w].told}                 \* its 'died' was reported by an earlier run, yet _closed does not have it (LateClosed)
+              lost   == (IF NoDeadSkip /\ noretry /\ name = "run" /\ got # {}       \* an input offered to a worker recorded dead is dropped
+                         THEN Cardinality({w \in RegW : ws[w].key \in closedIds}) ELSE 0)
+                        + (IF noretry /\ name = "run" /\ got # {} THEN Cardinality(forgot) ELSE 0)
           IN \E hit \in SUBSET got :            \* the workers that take the poison: all of them in turn with retry, exactly one without
              /\ hit = (IF ~pz THEN {} ELSE IF noretry /\ got # {} THEN hit ELSE got)
              /\ (pz /\ noretry /\ got # {}) => Cardinality(hit) = 1
@@ -155,7 +162,7 @@ Run(name) ==                                \* name: "run" | "runp" (poison: the
                    /\ restarted' = {}
                    /\ ans' = IF got = {} THEN ans ELSE IF pz THEN <<0, 0>> ELSE <<old, 0>>     \* as many of its own answers stay behind
                    /\ Done(name, [Obs(name, IF (pz /\ allgone) \/ got = {} \/ misfiled THEN "raised" ELSE "ok", "F", Cardinality(stale) + old, 0, rnw, wsx, reg)
-                                   EXCEPT !.spoiled = IF misfiled /\ ~pz THEN 1 ELSE 0, !.missing = lost, !.fresh_dead = Cardinality(deadw)])
+                                   EXCEPT !.spoiled = IF misfiled /\ ~pz THEN 1 ELSE 0, !.missing = lost, !.fresh_dead = Cardinality(deadw \ forgot)])
   /\ UNCHANGED <<plan, reg, poolClosed, nextKey, pc, todo, graceful>>
 
 RunAbort ==                                 \* run() abandoned by an exception raised by the worker_callback at the first 'enqueued' event
@@ -169,6 +176,20 @@ RunAbort ==                                 \* run() abandoned by an exception r
           /\ ans' = <<ans[1] + 1, IF StaleOverwrite THEN 1 ELSE ans[2] + 1>>     \* pool.py: `self._stale[wid] = self._stale.get(wid, 0) + len(workload)`
           /\ Done("runabort", Obs("runabort", "raised", "F", 0, 0, 0, ws, reg))
   /\ UNCHANGED <<plan, ws, reg, retries, poolClosed, nextKey, pc, todo, graceful>>
+
+RunPD ==                                    \* "runpd": a poison run in a pool with exactly ONE worker that can take work, abandoned by an exception
+  /\ Idle /\ ~Blocking /\ Go("runpd")        \* the worker_callback raises at that worker's 'died' event (pool.py handle_death: _closed.add BEFORE the callback)
+  /\ (Free => PDFree) /\ ~poolClosed /\ ans = <<0, 0>>
+  /\ LET got   == {w \in W : Usable(w) /\ Alive(w)}
+         deadw == {w \in W : Usable(w) /\ ~Alive(w)} IN
+     /\ Cardinality(got) = 1 /\ deadw = {}
+     /\ LET v == CHOOSE w \in got : TRUE
+            wsx == [ws EXCEPT ![v] = [@ EXCEPT !.os = "dead", !.told = TRUE]] IN
+        /\ ws' = wsx /\ nrun' = nrun + 1 /\ restarted' = {}
+        /\ closedIds' = IF LateClosed THEN closedIds ELSE closedIds \cup {ws[v].key}
+        /\ retries' = IF plan.retry = "F" THEN {} ELSE {nrun + 1}
+        /\ Done("runpd", Obs("runpd", "raised", "F", 0, 0, 0, wsx, reg))
+  /\ UNCHANGED <<plan, ans, reg, poolClosed, nextKey, pc, todo, graceful>>
 
 RunInt ==                                   \* run() is left through a BaseException raised by the worker_callback at the first result
   /\ Idle /\ ~Blocking /\ Go("runint")
@@ -192,7 +213,7 @@ RestartAll(ks, wsx, regx, nk, gentle) ==
        THEN [ws |-> wsx, reg |-> IF EarlyUnreg THEN regx \ {<<k, w>>} ELSE regx,          \* the entry is only replaced AFTER a successful restart
              nk |-> nk, ok |-> FALSE, done |-> {}]
        ELSE LET newk == IF ReuseKeys THEN k ELSE nk
-                r == RestartAll(Tail(ks), [wsx EXCEPT ![w] = [@ EXCEPT !.os = "alive", !.stuck = FALSE, !.key = newk,
+                r == RestartAll(Tail(ks), [wsx EXCEPT ![w] = [@ EXCEPT !.os = "alive", !.stuck = FALSE, !.told = FALSE, !.key = newk,
                                                                                !.regkey = IF NoRekey THEN @ ELSE newk]],
                                 IF NoRekey THEN regx ELSE (regx \ {<<k, w>>}) \cup {<<newk, w>>}, nk + 1, gentle)
             IN [r EXCEPT !.done = @ \cup {w}]
@@ -272,7 +293,7 @@ Interrupt ==
 
 Next == \/ \E k \in Kinds : AddOk(k) \/ Attach(k)
         \/ AddFail \/ (\E o \in W : AddDup(o) \/ Kill(o) \/ Stick(o))
-        \/ Run("run") \/ Run("runp") \/ Run("runl") \/ RunAbort \/ RunInt \/ Restart
+        \/ Run("run") \/ Run("runp") \/ Run("runl") \/ RunAbort \/ RunInt \/ RunPD \/ Restart
         \/ CloseBegin("close") \/ CloseBegin("terminate") \/ CloseBegin("exc")
         \/ CloseBegin("closeint") \/ CloseBegin("termint")
         \/ (\E w \in W : CleanupWorker(w)) \/ CloseEnd \/ Interrupt
